@@ -574,3 +574,33 @@ func Transitively(c *core.Ctx, info *types.Info, call *ast.CallExpr, depth int, 
 	})
 	return found
 }
+
+// PlainCallees returns fn and the module functions it reaches through plain
+// (non-go) static calls, up to depth levels.
+func PlainCallees(c *core.Ctx, fn *core.Fn, depth int) map[*types.Func]bool {
+	out := map[*types.Func]bool{}
+	var walk func(f *core.Fn, d int)
+	walk = func(f *core.Fn, d int) {
+		if f == nil || f.Decl.Body == nil || out[f.Obj] {
+			return
+		}
+		out[f.Obj] = true
+		if d == 0 {
+			return
+		}
+		goCalls := map[*ast.CallExpr]bool{}
+		core.InspectAll(f.Decl.Body, func(n ast.Node) bool {
+			if g, ok := n.(*ast.GoStmt); ok {
+				goCalls[g.Call] = true
+			}
+			if call, ok := n.(*ast.CallExpr); ok && !goCalls[call] {
+				if callee := core.CalleeFunc(f.Pkg.TypesInfo, call); callee != nil && callee.Pkg() != nil && strings.HasPrefix(callee.Pkg().Path(), core.Module) {
+					walk(c.FnOf(callee), d-1)
+				}
+			}
+			return true
+		})
+	}
+	walk(fn, depth)
+	return out
+}
